@@ -37,3 +37,31 @@ let run (id : string) (ops : string list) (out : out_channel) =
     Printf.fprintf out "%s\t%d\t%s\n" id i (show (C04Model.observe !st, !st.C04Model.bad))) ops
 
 let registered = Registry.register "C04" run
+
+(* ---- extraction cross-check inside Coq (see c18.ml): the model ops of the case (conc/skip ops
+   are not model ops) and, after each of them, (observe, bad) as THIS runner computed them with the
+   extracted step/observe, stated as C04Model.run_trace ops = [...] and proved by vm_compute. *)
+let coq_op (o : C04Model.op) = match o with
+  | C04Model.OBuf d -> "OBuf " ^ coq_zlist d
+  | C04Model.ONew (b, n, nc, pl, ch) ->
+    Printf.sprintf "ONew %s %s %s %s %s" (coq_nat b) (coq_nat n) (coq_bool nc) (coq_bool pl) (coq_option coq_nat ch)
+  | C04Model.ODispose p -> "ODispose " ^ coq_nat p
+  | C04Model.OMut (b, i, v) -> Printf.sprintf "OMut %s %s %s" (coq_nat b) (coq_nat i) (coq_z v)
+  | C04Model.ODrop k -> "ODrop " ^ coq_nat k
+
+let coq_pobs (o : C04Model.pobs) =
+  Printf.sprintf "{| ob_len := %s; ob_digest := %s; ob_head := %s; ob_disposed := %s |}"
+    (coq_nat o.C04Model.ob_len) (coq_z o.C04Model.ob_digest) (coq_zlist o.C04Model.ob_head) (coq_bool o.C04Model.ob_disposed)
+
+let to_coq (idx : int) (ops : string list) (out : out_channel) =
+  let l = Stdlib.List.filter_map parse_op ops in
+  let nbytes = Stdlib.List.fold_left (fun a o -> match o with C04Model.OBuf d -> a + Stdlib.List.length d | _ -> a) 0 l in
+  if nbytes <= 400 && l <> [] then begin
+    let st = ref C04Model.st0 in
+    let tr = Stdlib.List.map (fun o ->
+      st := C04Model.step !st o;
+      coq_pair (coq_list coq_pobs) coq_bool (C04Model.observe !st, !st.C04Model.bad)) l in
+    coq_example out idx ("run_trace " ^ coq_list coq_op l) ("[" ^ String.concat ";\n     " tr ^ "]")
+  end
+
+let registered_coq = Registry.register_coq "C04" ("From GP Require Import Base C04Model.\n", to_coq)
